@@ -156,7 +156,10 @@ type Tree struct {
 	Genesis *Node
 	Nodes   []*Node
 	ByHash  map[chainhash.Hash]*Node
-	nonce   uint64
+	// NoUtxo switches the UTXO bookkeeping off (coinbase-only trees of many
+	// blocks for index/header checks).
+	NoUtxo bool
+	nonce  uint64
 }
 
 // NewTree creates a tree holding only the genesis block of the parameters.
@@ -360,7 +363,7 @@ func (t *Tree) Extend(parent *Node, opt BlockOpt) *Node {
 	}
 	// model state: start from the parent's UTXO set (if the parent chain is valid)
 	var u UtxoSet
-	if parent.ChainValid {
+	if parent.ChainValid && !t.NoUtxo {
 		u = parent.Utxo.clone()
 	}
 	var fees int64
@@ -453,7 +456,7 @@ func (t *Tree) Extend(parent *Node, opt BlockOpt) *Node {
 	if !connectOK && n.Self == Valid && parent.ChainValid {
 		n.Self, n.Rule = InvalidConnect, connectRule
 	}
-	if n.ChainValid {
+	if n.ChainValid && !t.NoUtxo {
 		// BIP30 in the model: a transaction may not overwrite an unspent output
 		for _, tx := range txs {
 			h := tx.TxHash()
@@ -465,7 +468,7 @@ func (t *Tree) Extend(parent *Node, opt BlockOpt) *Node {
 			}
 		}
 	}
-	if n.ChainValid {
+	if n.ChainValid && !t.NoUtxo {
 		ApplyTx(u, cb, height, true)
 		n.Utxo = u
 		n.Spent = spentAll
